@@ -204,8 +204,9 @@ theorem C12_unscoped_union_partial (n : Nat) (ops : List Op) (arr : List Ev)
 
 /-- The full statement is false of the code as modelled, in two ways: (a) one lifetime,
 1025 shards, two contexts on the aliasing shards 0 and 1024 stored in the same millisecond —
-same id, one row dropped; (b) two shards … not needed: one shard and a restart with a repeated
-clock reading, as in `C12_scoped_complete_fails`. -/
+same id, one row dropped (replayed on the real engine: `c12 witness1025`); (b) one shard and a
+restart with a repeated clock reading, as in `C12_scoped_complete_fails` (replayed: `c12 witness`
+and the `clock` stream; finding C12-dup-id-after-restart). -/
 theorem C12_unscoped_union_fails :
     (∃ (ops : List Op) (e : Ev), (∀ op ∈ ops, op ≠ Op.restart) ∧
         e ∈ (reach 1025 ops).applied ∧ e ∉ (reach 1025 ops).read none) ∧
@@ -214,6 +215,33 @@ theorem C12_unscoped_union_fails :
       ⟨[0x31, 0x39, 0x38], compose t0 0 0, 2⟩, by decide +kernel⟩,
    ⟨[.store [0x63] 1 [t0], .restart, .store [0x63] 2 [t0]], ⟨[0x63], compose t0 0 0, 2⟩,
       by decide +kernel⟩⟩
+
+/-- A sufficient condition for the hypothesis of the two `_partial` theorems, and what they
+give under it: in **one process lifetime**, with clock readings inside the id window (any
+order, repeats, backward steps, bursts) and at most `2^10` shards, the ids of the accepted
+STOREs are pairwise distinct, so a read `FOR c` returns exactly the accepted STOREs of `c` in
+order and an unscoped read returns exactly all accepted STOREs. -/
+theorem C12_reads_complete_lifetime (n : Nat) (hn : n ≤ 2 ^ idShardBits) (ops : List Op)
+    (hnr : NoRestart ops) (hcr : ClocksInRange ops) :
+    ((reach n ops).applied.map Ev.id).Nodup ∧
+    (∀ c, (reach n ops).read (some c) = (reach n ops).applied.filter fun e => e.ctx == c) ∧
+    ((reach n ops).read none).Perm (reach n ops).applied := by
+  have hinv : Inv n (reach n ops) := inv_reach n ops
+  have hm : Mono (reach n ops) := mono_run ops (mono_init n) hnr hcr
+  have hids : ((reach n ops).applied.map Ev.id).Nodup :=
+    (hinv.perm.map Ev.id).nodup_iff.mpr (allEvents_ids_nodup hinv hm hn)
+  refine ⟨hids, fun c => (C12_scoped_complete_partial n ops c _ hids (List.Perm.refl _)).2, ?_⟩
+  exact (C12_unscoped_union_partial n ops _ hids (List.Perm.refl _)).2.1
+
+/-- Non-vacuity of `C12_reads_complete_lifetime`: a burst in one millisecond, a backward step. -/
+example : NoRestart [.store [0x61] 1 [t0], .store [0x61] 2 [t0], .store [0x62] 3 [t0 - 2]] ∧
+    ClocksInRange [.store [0x61] 1 [t0], .store [0x61] 2 [t0], .store [0x62] 3 [t0 - 2]] := by
+  refine ⟨by unfold NoRestart; decide, ?_⟩
+  intro c k clk h r hr
+  simp only [List.mem_cons, Op.store.injEq, List.not_mem_nil, or_false] at h
+  rcases h with ⟨_, _, rfl⟩ | ⟨_, _, rfl⟩ | ⟨_, _, rfl⟩ <;>
+    (simp only [List.mem_singleton] at hr; subst hr
+     unfold InRange t0 tsMod idEpochMillis idTimestampBits; decide)
 
 /-! ## Non-vacuity -/
 
